@@ -278,8 +278,10 @@ func Main(args []string) {
 			}
 		}
 	}
+	var findingList []any
 	for _, key := range order {
 		h := hits[key]
+		findingList = append(findingList, map[string]any{"oracle": h.f.Oracle, "sig": h.f.Sig, "occurrences": h.count, "first_crash_state": h.spec})
 		rep.Report(evidence.Report{Oracle: h.f.Oracle, Sig: h.f.Sig, Detail: fmt.Sprintf("%s (reproduced %d/5)", h.f.Detail, h.spec.Repro), Replay: h.spec, Count: h.count})
 	}
 
@@ -295,9 +297,9 @@ func Main(args []string) {
 		table = append(table, ps)
 	}
 	cov := map[string]any{
-		"evaluations":         evaluations,
-		"distinct_nontrivial": len(distinct),
-		"rule": "every scenario × every crash point k = 1..n+1 of its mutation log (process really dies before mutation k) × for a clock write every on-disk state derived from the file operations of the real lamport.PersistedClock; each evaluation = real re-open with clock loader + read-all + repeat of the action. A crash state is non-trivial when its on-disk state (set of loose git objects, presence of fetched packs, every ref with its target, existence and length of each clock file, other local-storage files, config) differs from both the state before the action and the state after the uninterrupted action; distinct = distinct by (scenario, that digest)",
+		"evaluations":           evaluations,
+		"distinct_nontrivial":   len(distinct),
+		"rule":                  "every scenario × every crash point k = 1..n+1 of its mutation log (process really dies before mutation k) × for a clock write every on-disk state derived from the file operations of the real lamport.PersistedClock; each evaluation = real re-open with clock loader + read-all + repeat of the action. A crash state is non-trivial when its on-disk state (set of loose git objects, presence of fetched packs, every ref with its target, existence and length of each clock file, other local-storage files, config) differs from both the state before the action and the state after the uninterrupted action; distinct = distinct by (scenario, that digest)",
 		"exhaustive":            harnessErrors == 0,
 		"scenarios":             len(scs),
 		"crash_points":          len(cases),
@@ -306,6 +308,7 @@ func Main(args []string) {
 		"verdicts":              verdicts,
 		"distinct_finding_sigs": len(order),
 		"per_scenario":          table,
+		"findings":              findingList, // every distinct oracle|sig with its first (smallest) crash state; known ones included
 		"samples":               samples,
 	}
 	ev := evidence.Evidence{PropertyID: "C06", Tier: tier, Seed: int(seed), Level: "fault_enumeration", Coverage: cov,
